@@ -109,6 +109,10 @@ class Collector:
             self.samples.append(sample)
 
     def violation(self, kind, features, replay, note=''):
+        if features.get('exception') in ('Inconclusive', 'PathLimit'):
+            # an engine verdict that travelled as an exception (solver `unknown` on a branch, path budget): not a finding about the code under test
+            self.inconclusive.append({'label': kind, 'why': note[:300]})
+            return
         if len(self.violations) < 200:
             self.violations.append({'kind': kind, 'features': features, 'replay': replay, 'note': note})
 
